@@ -1,7 +1,7 @@
 (* C11 property theorems: statements only, each closed by [exact]. *)
 From Boltons Require Import Lib.Prelude Lib.C11_Iface Spec.C11_Spec Model.C11_Model Gen.C11_Gen Check.C11_Check
      Proofs.C11_Lists Proofs.C11_Dead Proofs.C11_Inv Proofs.C11_Sets Proofs.C11_Refine Proofs.C11_Slice
-     Proofs.C11_Main Proofs.C11_Transfer Gen.C11_Src Proofs.C11_SrcEq Lib.C11_PyImp Gen.C11_Cull Proofs.C11_CullEq.
+     Proofs.C11_Main Proofs.C11_Transfer Gen.C11_Src Proofs.C11_SrcEq Lib.C11_PyImp Gen.C11_Cull Proofs.C11_CullEq Gen.C11_Ops Proofs.C11_OpsEq.
 From Coq Require Import Permutation Sorted.
 
 (* MAIN: for every compaction configuration, every history of the 29 public
@@ -88,6 +88,16 @@ Print Assumptions C11_source_cull.
 Theorem C11_source_add_dead : forall s r, src_add_dead s (Z.of_nat r) = set_dead s (add_dead (dead s) r).
 Proof. exact source_add_dead. Qed.
 Print Assumptions C11_source_add_dead.
+
+(* (T) and the text of remove and pop, which call the regenerated _get_real_index / _add_dead / _cull:
+   the orchestration of the tombstone bookkeeping (fast path test, order and presence of the calls) *)
+Theorem C11_source_remove : forall s x, Inv0 s -> src_remove s x = m_remove gen_cfg s x.
+Proof. exact source_remove. Qed.
+Print Assumptions C11_source_remove.
+
+Theorem C11_source_pop : forall s i, Inv s -> valid_op (m_live s) (Pop i) = true -> src_pop s i = m_pop gen_cfg s i.
+Proof. exact source_pop. Qed.
+Print Assumptions C11_source_pop.
 
 (* s[a:b:k], k > 0: iter_slice + islice = the list slice of CPython *)
 Theorem C11_slice : forall s a b k, Inv s -> valid_op (m_live s) (Slice a b k) = true ->
